@@ -28,6 +28,8 @@ structure Step where
   residue : Bool                          -- any of tmp-swap / sent-funds / tmp-liquidator present after
   /-- vAMMs on which a liquidation succeeded earlier in this transaction's block (from the observed history) -/
   liqsThisBlock : List Nat := []
+  /-- the implementation's error text of a rejected transaction (empty for model steps) -/
+  err : String := ""
   deriving Inhabited
 
 namespace W
@@ -528,7 +530,8 @@ def C15.check (s : Step) : List String :=
            let got := a.natAbs - b.natAbs
            let dev := if got ≥ want then got - want else want - got
            -- the close is priced in quote and re-quoted in base: one quote unit is base/quote base units
-           let roundingBound := x.st.base / x.st.quote + 2
+           -- (the exchange rate moves during the trade: the larger of the rates before and after bounds it)
+           let roundingBound := max (x.st.base / x.st.quote) (y.st.base / y.st.quote) + 2
            chk (got == want && a * b > 0)
              (if a * b > 0 && dev ≤ roundingBound then "partial-close-not-the-configured-fraction[within-requote-rounding]"
               else "partial-close-not-the-configured-fraction[gross]") ++
@@ -567,12 +570,45 @@ def C17.check (s : Step) : List String :=
 def C18.check (s : Step) : List String :=
   s.post.vamms.foldl (fun acc p => acc ++ chk (Spec.C18.snapshotsOk p.2.st s.env) s!"snapshot-discipline(v{p.1})") []
 
+/-! ### permission ("…has exactly these rights", "…are not restricted") clauses.
+  They speak about REJECTED calls and need the reason of the rejection, which only the implementation's
+  error text gives; a model step carries no error text and satisfies them trivially. -/
+
+def hasSub (hay needle : String) : Bool := (hay.splitOn needle).length > 1
+
+/-- C09, last sentence: the holder of a role is not turned away as unauthorized.  A `SetOpen` / `SetPause` that does not
+    change the flag and the emergency shutdown (which nests such calls) answer "unauthorized" by design of the
+    vAMM (finding F5 is judged by C14), so they are not judged here. -/
+def C09.checkLive (s : Step) : List String :=
+  if s.ok || !(hasSub s.err "nauthorized" || hasSub s.err "not_admin") then [] else
+  match C09.role s with
+  | some holders =>
+    let noop := match s.tx with
+      | .vammSetOpen v o => isOpenV s.pre v == o
+      | .engine (.setPause p) => s.pre.engine.st.pause == p
+      | .ifShutdown => true
+      | _ => false
+    chk (!(holders.contains s.sender) || noop) "role-holder-refused-as-unauthorized"
+  | none => []
+
+/-- C16, second sentence: a trader is turned away by the one-action-per-block rule only if a liquidation
+    happened on that vAMM earlier in this block (observed history) and the trader's position was already
+    updated in this block -/
+def C16.checkLive (s : Step) : List String :=
+  if s.ok || !(hasSub s.err "Only_one_action") then [] else
+  match engineMsg s with
+  | some (.openPosition v _ _ _ _) | some (.closePosition v _) =>
+    chk (s.liqsThisBlock.contains v && (pos s.pre v s.sender).block == s.env.height)
+      "unrestricted-trader-refused-as-restricted"
+  | _ => []
+
 /-- all world checks, tagged by property -/
 def allChecks (s : Step) : List (String × List String) :=
   [("C01", C01.check s), ("C02", C02.check s), ("C03", C03.check s), ("C04", C04.check s),
    ("C05", C05.check s), ("C06", C06.check s), ("C07", C07.check s), ("C08", C08.check s),
    ("C09", C09.check s), ("C10", C10.check s), ("C11", C11.check s), ("C12", C12.check s),
    ("C14", C14.check s), ("C15", C15.check s), ("C16", C16.check s), ("C17", C17.check s),
-   ("C18", C18.check s), ("C20", C20.check s)]
+   ("C18", C18.check s), ("C20", C20.check s),
+   ("C09", C09.checkLive s), ("C16", C16.checkLive s)]
 
 end Perp.Spec
